@@ -239,7 +239,13 @@ func runC20Corpus(c *fw.Ctx) {
 			}
 			ft := doc.Text(f.nodes())
 			var fsx []string
-			for _, t := range parseForest(implScan("JSIGHT 0.3\n" + ft).tree)[1:] {
+			ff := parseForest(implScan("JSIGHT 0.3\n" + ft).tree)
+			if len(ff) < 2 {
+				c.Note("harness_fault", "C20: the fresh declaration "+f.name+" does not pass the scan phase on its own")
+				c.NotExhaustive("fresh declaration " + f.name + " rejected")
+				continue
+			}
+			for _, t := range ff[1:] {
 				fsx = append(fsx, t.sexpr())
 			}
 			for pos := 1; pos <= len(d.top); pos++ {
